@@ -8,6 +8,7 @@ package main
 //	  <s>/i/<filter>/<steps>            IterateIds(filter) through store s
 //	  <s>/v/<filter>/<steps>            IterateValidIds(filter)
 //	  <s>/q/<filter>/<u|s>/<provider>   QueryWithCursorC, provider l<ids> | x<role>
+//	  <s>/p|P/<filter>/<skip>/<limit>/<steps>, <s>/Q/<filter>/<skip>/<limit>   paged walks / QueryIds (c15_paging.go)
 //
 // The history is executed as for `h` lines (all observations after every transaction); the items
 // run afterwards in one read transaction.
@@ -72,6 +73,8 @@ func (s *c15Stores) runItem(tx *bbolt.Tx, item string) string {
 		return "bad-item"
 	}
 	switch f[1] {
+	case "p", "P", "Q":
+		return s.runPagedItem(tx, store, sel, text, f)
 	case "i", "v":
 		var filter ast.BoolNode = ast.BoolNodeTrue
 		if f[2] != "t" {
